@@ -645,7 +645,10 @@ func ruleC15Compose(p *Prog, r *Result) {
 func ruleC15Dir(p *Prog, r *Result) {
 	fn := p.Func("cmd/bkld.main")
 	var call *ssa.Call
-	for _, cs := range allCalls([]*ssa.Function{fn}) {
+	for _, cs := range allCalls(samePkgClosure(fn)) {
+		if cs.Fn != nil && p.FuncName(cs.Fn) == "cmd/bkld.diffDoc" {
+			continue // diffDoc's own recursion is not main's call
+		}
 		if cs.Callee != nil && p.InRepo(cs.Callee) && p.FuncName(cs.Callee) == "cmd/bkld.diffDoc" {
 			call, _ = cs.Instr.(*ssa.Call)
 		}
@@ -710,7 +713,10 @@ func ruleC15Dir(p *Prog, r *Result) {
 func ruleC17Main(p *Prog, r *Result) {
 	fn := p.Func("cmd/bklr.main")
 	var calls []*ssa.Call
-	for _, cs := range allCalls([]*ssa.Function{fn}) {
+	for _, cs := range allCalls(samePkgClosure(fn)) {
+		if cs.Fn != nil && (cs.Fn == cs.Callee || strings.HasPrefix(p.FuncName(cs.Fn), "cmd/bklr.required")) {
+			continue // the skeleton computation's own recursion
+		}
 		if cs.Callee != nil && p.FuncName(cs.Callee) == "cmd/bklr.required" {
 			if c, ok := cs.Instr.(*ssa.Call); ok {
 				calls = append(calls, c)
